@@ -18,7 +18,9 @@
   "Well-formed property set" is read as: names free of braces and, for every variable, one qualified tag
   (`bodyWF`; `{ns}x` and `x` name the same variable but are not mixed within one event; a repeated element
   assigns its last text).  Outside that the routed service's variables are
-  compared with the model but not judged (status and the other services still are).  Conversion / validation are the model's `convert` / `validate` (int, str, lower-in kinds).
+  compared with the model but not judged (status and the other services still are).  Conversion / validation are C08's `coercePython` /
+  `Schema.check` for the variable's row of the generated type table (all 26 data types), whose correctness
+  against the UPnP wire formats is C08's theorems.
   Import-free (linked into the driver).
 -/
 import Upnp.Model.C10Notify
@@ -53,8 +55,11 @@ def bodyWF (b : Body) : Bool :=
 /-- the text the property set carries for variable `x`: that of the last element naming it -/
 def carried (x : Str) (b : Body) : Option Str := ((kids b).reverse.find? (·.name == x)).map (·.text)
 
-/-- observation of one variable: (name, value, updated_at tick) -/
-abbrev VarObs := Str × Option Val × Option Nat
+/-- observation of one variable: (name, value (`.none` = absent), updated_at tick) -/
+abbrev VarObs := Str × Val × Option Nat
+
+section
+variable [FloatOracle]
 
 structure NObs where
   n : Notify
@@ -68,27 +73,27 @@ deriving Repr
 
 /-- what the property prescribes for one variable of the routed service:
     (value after, updated after, listed in the callback) -/
-def specVar (d : Decl) (b : Body) (tick : Nat) (v0 : Option Val) (u0 : Option Nat) : Option Val × Option Nat × Bool :=
-  match carried d.name b with
+def specVar (d : Var) (b : Body) (tick : Nat) (v0 : Val) (u0 : Option Nat) : Val × Option Nat × Bool :=
+  match carried d.decl.name b with
   | none => (v0, u0, false)
   | some text =>
-    match convert (inKindOf d.dtype) text with
-    | none => (none, u0, true)
-    | some v => if validate d v then (some v, some tick, true) else (v0, u0, false)
+    match convert d text with
+    | .error _ => (.none, u0, true)
+    | .ok v => if validate d v then (v, some tick, true) else (v0, u0, false)
 
-def varOk (d : Decl) (b : Body) (tick : Nat) (listed : List Str) (o0 o1 : VarObs) : Bool :=
-  o0.1 == d.name && o1.1 == d.name
-  && (o1.2.1, o1.2.2, listed.contains d.name) == specVar d b tick o0.2.1 o0.2.2
+def varOk (d : Var) (b : Body) (tick : Nat) (listed : List Str) (o0 o1 : VarObs) : Bool :=
+  o0.1 == d.decl.name && o1.1 == d.decl.name
+  && (o1.2.1, o1.2.2, listed.contains d.decl.name) == specVar d b tick o0.2.1 o0.2.2
 
 def zip3 {α β γ : Type} : List α → List β → List γ → List (α × β × γ)
   | a :: as, b :: bs, c :: cs => (a, b, c) :: zip3 as bs cs
   | _, _, _ => []
 
 /-- the routed service: exactly one callback; its list has no repeats and only declared names -/
-def routedSvcOk (ds : List Decl) (b : Body) (tick : Nat) (o0 o1 : List VarObs) (evs : List (List Str)) : Bool :=
+def routedSvcOk (ds : List Var) (b : Body) (tick : Nat) (o0 o1 : List VarObs) (evs : List (List Str)) : Bool :=
   match evs with
   | [listed] =>
-    nodupB listed && listed.all (fun x => (ds.map (·.name)).contains x)
+    nodupB listed && listed.all (fun x => (ds.map (·.decl.name)).contains x)
     && o0.length == ds.length && o1.length == ds.length
     && (zip3 ds o0 o1).all (fun t => varOk t.1 b tick listed t.2.1 t.2.2)
   | _ => false
@@ -97,26 +102,38 @@ def untouched (o0 o1 : List VarObs) (evs : List (List Str)) : Bool := o0 == o1 &
 
 /-- all services, by index: the `target` service (if any) against `routedSvcOk`, every other one untouched -/
 def svcsOkAux (b : Body) (tick : Nat) (target : Option Nat) :
-    Nat → List (List Decl) → List (List VarObs) → List (List VarObs) → List (List (List Str)) → Bool
+    Nat → List (List Var) → List (List VarObs) → List (List VarObs) → List (List (List Str)) → Bool
   | _, [], [], [], [] => true
   | i, ds :: dr, o0 :: r0, o1 :: r1, ev :: re =>
     (if target == some i then (!bodyWF b || routedSvcOk ds b tick o0 o1 ev) else untouched o0 o1 ev)
     && svcsOkAux b tick target (i + 1) dr r0 r1 re
   | _, _, _, _, _ => false
 
-def svcsOk (decls : List (List Decl)) (o : NObs) (target : Option Nat) : Bool :=
+def svcsOk (decls : List (List Var)) (o : NObs) (target : Option Nat) : Bool :=
   svcsOkAux o.n.body o.tick target 0 decls o.before o.after o.events
 
 /-- **C10.stepOk** — judge of one NOTIFY request -/
-def stepOk (decls : List (List Decl)) (o : NObs) : Bool :=
+def stepOk (decls : List (List Var)) (o : NObs) : Bool :=
+  o.n.malformed ||      -- a body that is not XML is outside "well-formed property set": compared, not judged
   o.res == .status (specStatus o.n.hdrs)
   && svcsOk decls o (if specStatus o.n.hdrs == 200 then o.routedTo else none)
 
-def ok (decls : List (List Decl)) (h : List NObs) : Bool := h.all (stepOk decls)
+def ok (decls : List (List Var)) (h : List NObs) : Bool := h.all (stepOk decls)
+
+end
+
+section
+variable [FloatOracle]
+
+/-- a variable as declared: its state blanked -/
+def Var.blank (v : Var) : Var := { v with st := {} }
+
+/-- the declared variables of a service -/
+def declsOf (s : Svc) : List Var := s.vars.map Var.blank
 
 /-! ### the model's observations -/
 
-def svcObs (s : Svc) : List VarObs := s.vars.map fun v => (v.decl.name, v.st.stored.read, v.st.updated)
+def svcObs (s : Svc) : List VarObs := s.vars.map fun v => (v.decl.name, Stored.read v.st.stored, v.st.updated)
 
 /-- what the driver compares the implementation's observations with -/
 def modelObs (h : Handler) (n : Notify) (tick : Nat) : NObs :=
@@ -130,4 +147,5 @@ def modelTrace : Handler → List Notify → Nat → List NObs
   | _, [], _ => []
   | h, n :: r, k => modelObs h n k :: modelTrace (handleNotify h n k).1 r (k + 1)
 
+end
 end Upnp.C10
